@@ -128,6 +128,13 @@ def gen_model(rng, quick, version=None, pv=None, nsat=None, nep=None, sats=None,
                 r["extras"].append(("V", s + "".join(f"{rng.uniform(-30000, 30000):14.6f}" for _ in range(4))))
                 if rng.random() < 0.1:
                     r["extras"].append(("EV", f"{s}  {rng.randint(0, 9999):4d} {rng.randint(0, 9999):4d} {rng.randint(0, 9999):4d} {rng.randint(0, 9999999):7d}"))
+            # blank lines after the record (kind "B": 0..5 blanks and nothing else).  Decided by the values already drawn, so the
+            # random stream - and with it every generated file apart from these lines - is what it was without them
+            z = (abs(r["x"]) + 7 * abs(r["clk"]) + 3 * abs(r["y"])) % 40
+            if z < 3:
+                for j in range(1 + z % 2):
+                    b = ("B", " " * ((abs(r["z"]) + 5 * j) % 6))
+                    r["extras"].insert(0 if (z == 2 and r["extras"]) else len(r["extras"]), b)
             recs.append(r)
         epochs.append({"t": t, "s7": t.second * 10**7 + tot7 % 10**7, "recs": recs})
     return {"version": version, "line1": line1, "line2": line2, "satlines": satlines, "ft": ft, "ts": time_sys,
@@ -166,7 +173,7 @@ def py_render(F):
                 fl = [f or " " for f in acc["flags"]]
                 line += f" {fl[0]}{fl[1]}  {fl[2]}{fl[3]}"
             L.append(line.ljust(80) if r["pad80"] else line.rstrip())
-            L += [k + t for k, t in r["extras"]]
+            L += [("" if k == "B" else k) + t for k, t in r["extras"]]     # a blank line has no tag
     L.append("EOF")
     return "\n".join(L) + "\n"
 
@@ -445,7 +452,11 @@ def one_file(ctx, impl, drv, f, corpus=False):
         ctx.count(f"+/++ header lines:{len(F['satlines'])}")
         kinds = {k for e in F["epochs"] for r in e["recs"] for k, _ in r["extras"]}
         for k in sorted(kinds):
-            ctx.count(f"files with {k} lines")
+            ctx.count("files with blank lines after a P record" if k == "B" else f"files with {k} lines")
+        blanks = [t for e in F["epochs"] for r in e["recs"] for k, t in r["extras"] if k == "B"]
+        ctx.count("blank lines", len(blanks))
+        ctx.count("blank lines:empty (no blanks)", sum(1 for t in blanks if t == ""))
+        ctx.count("blank lines:directly before EOF", sum(1 for e in F["epochs"][-1:] for r in e["recs"][-1:] if r["extras"] and r["extras"][-1][0] == "B"))
         ctx.count("records", len(f["recs"]))
         ctx.count("records:cut after clock", sum(1 for e in F["epochs"] for r in e["recs"] if r["acc"] is None))
         ctx.count("records:padded to 80 columns", sum(1 for e in F["epochs"] for r in e["recs"] if r["pad80"]))
@@ -502,6 +513,7 @@ def run(ctx: Ctx):
                 "each checked against File.wf and the compiled instance of file_roundtrip, then parsed by the real parser: 1, 2..90 and 86..99 satellites of any constellation letter (extra +/++ header lines), "
                 "1..50 epochs with whole and fractional (1e-7 s) seconds and steps incl. sub-second steps (0.1/0.25/0.5 s, several epochs per integral second), P and P+V files with EP/EV lines, "
                 "0.000000 / 999999.999999 sentinels and the values next to them (+-0.000001, +-0.000002, 999999.999998, -999999.999999), blank accuracy codes, records cut after the clock or after the codes, "
+                "blank lines of 0..5 blanks after position records (about 7 % of the records; part of File.wf and of file_roundtrip), "
                 "GPS and UTC time systems, comment/%i/+/++ header lines; every case non-trivial; distinct by file text.  "
                 + c13_adv.RULE)
     ctx.trusted += ["float(text) vs correctly rounded double of the exact rational; products with unit factors compared to 4e-16 relative, "
@@ -509,7 +521,8 @@ def run(ctx: Ctx):
                     "Time(datetime)+TimeDelta(seconds) of midgard.data.time taken as given (C02/C03); dataset epoch compared to 1e-8 s",
                     "the driver's wire parser for abstract files (lean/Driver/C13.lean, namespace Wire); the Lean spec writer is compared byte for byte with the independent Python writer on every generated file"]
     ctx.assumptions += ["seconds fields carry at most 7 decimals (the 8th printed digit is 0), so '{:010.7f}' is exact",
-                        "no duplicate epochs (outside 'well-formed'); the abstract files of File.wf contain no empty lines, files with empty lines are the adversarial kinds blank-*"] + c13_adv.ASSUMPTIONS
+                        "no duplicate epochs (outside 'well-formed'); the abstract files of File.wf contain blank lines (0..5 blanks) after position records only "
+                        "(also directly before EOF); blank lines directly after an epoch line, after EOF, in the header, and whitespace other than blanks are the adversarial kinds blank-*"] + c13_adv.ASSUMPTIONS
     ctx.extra["adversarial_kinds"] = {**{k: {"real_parser": e, "property_defines_result": p} for k, (e, p) in c13_adv.EXPECT.items()},
                                       **{k: {"real_parser": v, "property_defines_result": True} for k, v in c13_adv.MODEL_KINDS.items()}}
     try:
